@@ -31,23 +31,37 @@ type Spec struct {
 	CoresPerNode int
 	Threads      int  // per core
 	AdjacentHT   bool // siblings numbered 2k,2k+1 (else k, k+ncores)
-	Offline      []int
-	Isolated     []int
-	NodeMemKB    map[int]int64 // per CPU node override; default DefaultMemKB; 0 = memory-less
-	MovableNodes []int         // CPU nodes whose memory is movable-only
-	DefaultMemKB int64
-	Extras       []Extra
-	ClusterCores int    // cores per cluster (0: every core its own cluster id)
-	L2PerCluster bool   // L2 shared by the cluster instead of the core
-	L3           string // "die" (default), "package", "node", "none"
-	NoCaches     bool
-	ECores       []int // CPUs (all threads) that are E-cores; rest P-cores; nil = no hybrid files
-	BaseFreq     map[int]uint64
-	MaxFreq      map[int]uint64
-	MinFreq      map[int]uint64
-	EPP          map[int]string
-	NoDieID      bool
-	CoreIDPerDie bool // core_id restarts at 0 in every die (AMD multi-die packages, device-tree ARM): not unique within a package
+	// CoreThreads, when set, gives the number of threads of each core (indexed by the core's number within its package) and
+	// overrides Threads; CPUs are then numbered consecutively core by core. ClusterOfCore, when set, gives the cluster id of
+	// each core (same index) and overrides ClusterCores. Together they describe real hybrid parts: hyperthreaded P-cores that
+	// are each their own cluster next to clusters of several single-threaded E-cores.
+	CoreThreads   []int
+	ClusterOfCore []int
+	Offline       []int
+	Isolated      []int
+	NodeMemKB     map[int]int64 // per CPU node override; default DefaultMemKB; 0 = memory-less
+	MovableNodes  []int         // CPU nodes whose memory is movable-only
+	DefaultMemKB  int64
+	Extras        []Extra
+	ClusterCores  int    // cores per cluster (0: every core its own cluster id)
+	L2PerCluster  bool   // L2 shared by the cluster instead of the core
+	L3            string // "die" (default), "package", "node", "none"
+	NoCaches      bool
+	ECores        []int // CPUs (all threads) that are E-cores; rest P-cores; nil = no hybrid files
+	BaseFreq      map[int]uint64
+	MaxFreq       map[int]uint64
+	MinFreq       map[int]uint64
+	EPP           map[int]string
+	NoDieID       bool
+	CoreIDPerDie  bool // core_id restarts at 0 in every die (AMD multi-die packages, device-tree ARM): not unique within a package
+	Devices       []Device
+}
+
+// Device is a character device with a PCI parent that has NUMA locality (what topology hints are derived from).
+type Device struct {
+	Major, Minor int64
+	Node         int    // numa_node of the PCI parent
+	CPUs         string // local_cpulist of the PCI parent
 }
 
 // CPU is the reference description of one CPU.
@@ -112,6 +126,14 @@ func (s *Spec) Model() *Model {
 	m := &Model{Spec: s}
 	ncores := s.Packages * s.Dies * s.NodesPerDie * s.CoresPerNode
 	ncpu := ncores * s.Threads
+	if s.CoreThreads != nil {
+		ncpu = 0
+		for _, n := range s.CoreThreads {
+			ncpu += n
+		}
+		ncpu *= s.Packages
+	}
+	nextCPU := 0
 	m.CPUs = make([]CPU, ncpu)
 	core := 0
 	nnodes := s.Packages * s.Dies * s.NodesPerDie
@@ -123,7 +145,11 @@ func (s *Spec) Model() *Model {
 				node := (p*s.Dies+d)*s.NodesPerDie + n
 				for c := 0; c < s.CoresPerNode; c++ {
 					var ths []int
-					for t := 0; t < s.Threads; t++ {
+					for t := 0; s.CoreThreads != nil && t < s.CoreThreads[coreInPkg]; t++ {
+						ths = append(ths, nextCPU)
+						nextCPU++
+					}
+					for t := 0; s.CoreThreads == nil && t < s.Threads; t++ {
 						if s.AdjacentHT {
 							ths = append(ths, core*s.Threads+t)
 						} else {
@@ -133,6 +159,9 @@ func (s *Spec) Model() *Model {
 					cl := coreInPkg
 					if s.ClusterCores > 0 {
 						cl = coreInPkg / s.ClusterCores
+					}
+					if s.ClusterOfCore != nil {
+						cl = s.ClusterOfCore[coreInPkg]
 					}
 					coreFile := coreInPkg
 					if s.CoreIDPerDie {
@@ -173,7 +202,7 @@ func (s *Spec) Model() *Model {
 		globalCore := func(c *CPU) int { return c.Pkg*10000 + c.Core }
 		coreG := group(globalCore)
 		l2key := globalCore
-		if s.L2PerCluster && s.ClusterCores > 0 {
+		if s.L2PerCluster && (s.ClusterCores > 0 || s.ClusterOfCore != nil) {
 			l2key = func(c *CPU) int { return c.Pkg*10000 + c.Cluster }
 		}
 		l2G := group(l2key)
@@ -331,6 +360,17 @@ func wr(path, content string) {
 func (m *Model) Write(root string) {
 	s := m.Spec
 	sys := filepath.Join(root, "sys")
+	for i, d := range s.Devices {
+		pci := filepath.Join(sys, "devices", "pci0000:00", fmt.Sprintf("0000:00:%02x.0", i+1))
+		dev := filepath.Join(pci, "verifdev", fmt.Sprintf("vdev%d", i))
+		os.MkdirAll(dev, 0o755)
+		wr(filepath.Join(pci, "numa_node"), strconv.Itoa(d.Node))
+		wr(filepath.Join(pci, "local_cpulist"), d.CPUs)
+		wr(filepath.Join(dev, "dev"), fmt.Sprintf("%d:%d", d.Major, d.Minor))
+		char := filepath.Join(sys, "dev", "char")
+		os.MkdirAll(char, 0o755)
+		os.Symlink(filepath.Join("..", "..", "devices", "pci0000:00", fmt.Sprintf("0000:00:%02x.0", i+1), "verifdev", fmt.Sprintf("vdev%d", i)), filepath.Join(char, fmt.Sprintf("%d:%d", d.Major, d.Minor)))
+	}
 	cpuDir := filepath.Join(sys, "devices/system/cpu")
 	var all []int
 	for _, c := range m.CPUs {
